@@ -686,4 +686,195 @@ Section Proofs.
       + intros s. specialize (Hm' s). rewrite Qi in Hm'. lia.
       + intros p n. rewrite Ho', Qo. cbn [coin_only]. lia.
   Qed.
+  (* ----------------------------------------------------------------------------------------- *)
+  (* Largest-first: order, minimality, completeness *)
+
+  Lemma lf_prefix sel todo : forall aidx st st' r,
+    lf_loop ffi sel avail todo aidx st = (st', r) ->
+    exists taken rest, todo = taken ++ rest /\ st_trace st' = st_trace st ++ taken.
+  Proof.
+    induction todo as [|i todo IH]; intros aidx st st' r H; cbn [lf_loop] in H.
+    - inversion H; subst. exists [], []. split; [reflexivity|rewrite app_nil_r; reflexivity].
+    - destruct (covered sel st) as [c| | | |]; cbn [obind] in H;
+        try (inversion H; subst; exists [], (i :: todo); split; [reflexivity|rewrite app_nil_r; reflexivity]).
+      destruct c; [inversion H; subst; exists [], (i :: todo); split; [reflexivity|rewrite app_nil_r; reflexivity]|].
+      destruct (nth_error avail i) as [u|]; [|inversion H; subst; exists [], (i :: todo); split; [reflexivity|rewrite app_nil_r; reflexivity]].
+      destruct (add_input ffi true i u st) as [st1 r1] eqn:Ea.
+      pose proof (add_input_trace _ _ _ _ _ _ Ea) as Ht.
+      assert (Hstop : st' = st1 -> exists taken rest, i :: todo = taken ++ rest /\ st_trace st' = st_trace st ++ taken).
+      { intros ->. destruct Ht as [Ht|Ht]; rewrite Ht.
+        - exists [], (i :: todo). split; [reflexivity|rewrite app_nil_r; reflexivity].
+        - exists [i], todo. split; reflexivity. }
+      destruct r1 as [[]| | | |]; cbn [obind] in H; try (inversion H; subst; apply Hstop; reflexivity).
+      destruct Ht as [Ht|Ht].
+      { (* Done always appends *) exfalso. unfold add_input in Ea.
+        destruct (ffi (st_inputs st) u) as [fee| | |]; cbn [of_result obind] in Ea; try discriminate Ea.
+        destruct (u_ok u); [|discriminate Ea].
+        destruct (value_checked_add (st_in st) (u_val u)); cbn [of_result obind] in Ea; try discriminate Ea.
+        destruct (value_checked_add (st_out st) (value_new fee)); cbn [of_result obind] in Ea; try discriminate Ea.
+        inversion Ea; subst. cbn [st_trace] in Ht.
+        assert (L : length (st_trace st ++ [i]) = length (st_trace st)) by (rewrite Ht; reflexivity).
+        rewrite app_length in L. cbn in L. lia. }
+      destruct (position i aidx) as [p|]; [|inversion H; subst; apply Hstop; reflexivity].
+      destruct (swap_remove p aidx) as [[x aidx1]|]; [|inversion H; subst; apply Hstop; reflexivity].
+      destruct (IH _ _ _ _ H) as [taken [rest [Hsplit Htr]]].
+      exists (i :: taken), rest. split; [cbn; rewrite Hsplit; reflexivity|].
+      rewrite Htr, Ht, <- app_assoc. reflexivity.
+  Qed.
+
+  Definition desc_sorted (k : nat -> N) (l : list nat) : Prop := StronglySorted (fun a b => k b <= k a) l.
+
+  Lemma key_sorted_rev (k : nat -> N) l : key_sorted k l -> desc_sorted k (rev l).
+  Proof.
+    induction 1 as [|x l Hl IH Hx]; cbn [rev]; [constructor|].
+    unfold desc_sorted in *.
+    assert (G : forall l1, StronglySorted (fun a b => k b <= k a) l1 -> Forall (fun y => k x <= k y) l1 ->
+                           StronglySorted (fun a b => k b <= k a) (l1 ++ [x])).
+    { induction 1 as [|y l1 H1 IH1 Hy]; intros HF; cbn [app]; [repeat constructor|].
+      inversion HF; subst. constructor; [apply IH1; auto|].
+      apply Forall_app. split; auto. }
+    apply G; auto. apply Forall_forall. intros y Hy. apply in_rev in Hy. rewrite Forall_forall in Hx. apply Hx. exact Hy.
+  Qed.
+
+  Lemma desc_sorted_app k l1 l2 : desc_sorted k (l1 ++ l2) ->
+    desc_sorted k l1 /\ (forall i j, In i l1 -> In j l2 -> k j <= k i).
+  Proof.
+    unfold desc_sorted. induction l1 as [|x l1 IH]; cbn [app]; intros H.
+    - split; [constructor|intros i j []].
+    - inversion H; subst. destruct (IH H2) as [S1 S2]. split.
+      + constructor; auto. rewrite Forall_forall in *. intros y Hy. apply H3. apply in_or_app; auto.
+      + intros i j [<-|Hi] Hj; [|apply S2; auto]. rewrite Forall_forall in H3. apply H3. apply in_or_app; auto.
+  Qed.
+
+  (* the inputs largest-first adds form a prefix of the candidates ordered by decreasing quantity *)
+  Theorem largest_first_order sel aidx st st' r :
+    lf_by ffi sel avail aidx st = (st', r) ->
+    exists taken, st_trace st' = st_trace st ++ taken /\
+      desc_sorted (key_of sel avail) taken /\
+      (forall i, In i taken -> In i aidx /\ has_key sel avail i = true) /\
+      (forall i j, In i taken -> In j aidx -> has_key sel avail j = true -> ~ In j taken ->
+                   key_of sel avail j <= key_of sel avail i).
+  Proof.
+    intros H. unfold lf_by in H.
+    destruct (lf_loop ffi sel avail (rev (lf_relevant sel avail aidx)) aidx st) as [st1 r1] eqn:El.
+    assert (Hst : st' = st1).
+    { destruct r1 as [a| | | |]; cbn [obind] in H; try (inversion H; reflexivity).
+      destruct (covered sel st1) as [c| | | |]; cbn [obind] in H; try (inversion H; reflexivity).
+      destruct c; inversion H; reflexivity. }
+    subst st1. destruct (lf_prefix _ _ _ _ _ _ El) as [taken [rest [Hsplit Htr]]].
+    exists taken. split; [exact Htr|].
+    pose proof (key_sorted_rev _ _ (stable_sort_sorted (key_of sel avail) (filter (has_key sel avail) aidx))) as Hs.
+    fold (lf_relevant sel avail aidx) in Hs. rewrite Hsplit in Hs.
+    destruct (desc_sorted_app _ _ _ Hs) as [S1 S2].
+    assert (Hmem : forall j, In j (taken ++ rest) <-> In j aidx /\ has_key sel avail j = true).
+    { intros j. rewrite <- Hsplit. rewrite <- in_rev. unfold lf_relevant.
+      split.
+      - intros Hj. apply (Permutation_in _ (stable_sort_perm _ _)) in Hj. apply filter_In in Hj. exact Hj.
+      - intros Hj. apply (Permutation_in _ (Permutation_sym (stable_sort_perm _ _))). apply filter_In. exact Hj. }
+    conj; auto.
+    - intros i Hi. apply Hmem. apply in_or_app; auto.
+    - intros i j Hi Hj Hk Hnj. apply S2; auto.
+      assert (Hin : In j (taken ++ rest)) by (apply Hmem; auto).
+      apply in_app_or in Hin. tauto.
+  Qed.
+
+  Lemma add_input_inputs i u st st' :
+    add_input ffi true i u st = (st', Done tt) -> st_inputs st' = imap_insert u (st_inputs st).
+  Proof.
+    unfold add_input. intros H.
+    destruct (ffi (st_inputs st) u) as [fee| | |]; cbn [of_result obind] in H; try discriminate H.
+    destruct (u_ok u); [|discriminate H].
+    destruct (value_checked_add (st_in st) (u_val u)); cbn [of_result obind] in H; try discriminate H.
+    destruct (value_checked_add (st_out st) (value_new fee)); cbn [of_result obind] in H; try discriminate H.
+    inversion H; subst. reflexivity.
+  Qed.
+
+  (* [uncovered_prefixes sel st taken]: no proper prefix of [taken] covers the target: for every k < |taken| the
+     quantity held after adding the first k inputs is below the target including the fees of those k inputs *)
+  Definition uncovered_prefixes (sel : selector) (st : sel_state) (taken : list nat) : Prop :=
+    forall k, (k < length taken)%nat ->
+      exists fk, marginal_fees ffi (st_inputs st) (added_of (firstn k taken)) = Ok fk /\
+                 Q sel (st_in st) + sumQ sel (map u_val (added_of (firstn k taken))) < Q sel (st_out st) + coin_only sel fk.
+
+  Lemma lf_loop_done sel todo : forall aidx st st' aidx',
+    Inv st -> lf_loop ffi sel avail todo aidx st = (st', Done aidx') ->
+    exists taken rest, todo = taken ++ rest /\ st_trace st' = st_trace st ++ taken /\ Inv st' /\
+      (rest = [] \/ covered sel st' = Done true) /\ uncovered_prefixes sel st taken.
+  Proof.
+    induction todo as [|i todo IH]; intros aidx st st' aidx' I H; cbn [lf_loop] in H.
+    - inversion H; subst. exists [], []. conj; auto; try (rewrite app_nil_r; reflexivity); try (intros k Hk; cbn in Hk; lia).
+    - destruct (covered sel st) as [c| | | |] eqn:Ec; cbn [obind] in H; try discriminate H.
+      destruct c.
+      { inversion H; subst. exists [], (i :: todo). conj; auto; try (rewrite app_nil_r; reflexivity); try (intros k Hk; cbn in Hk; lia). }
+      destruct (nth_error avail i) as [u|] eqn:Eu; [|discriminate H].
+      destruct (add_input ffi true i u st) as [st1 r1] eqn:Ea. ob H. destruct a.
+      destruct (position i aidx) as [p|]; [|discriminate H].
+      destruct (swap_remove p aidx) as [[x aidx1]|]; [|discriminate H].
+      destruct (add_input_ok _ _ _ _ I (Havail _ _ Eu) Ea) as [I1 [Ht [Qi [f [Ef Qo]]]]].
+      destruct (IH _ _ _ _ I1 H) as [taken [rest [Hsplit [Htr [I' [Hstop Hmin]]]]]].
+      exists (i :: taken), rest. conj; auto.
+      + cbn. rewrite Hsplit. reflexivity.
+      + rewrite Htr, Ht, <- app_assoc. reflexivity.
+      + intros k Hk. destruct k as [|k].
+        * exists 0. cbn [firstn added_utxos flat_map marginal_fees map]. split; [reflexivity|].
+          apply covered_Q in Ec. symmetry in Ec. apply N.leb_gt in Ec.
+          unfold sumQ. cbn [fold_right]. destruct sel; cbn [coin_only]; lia.
+        * cbn [length] in Hk. assert (Hk' : (k < length taken)%nat) by lia.
+          destruct (Hmin k Hk') as [fk [Hfk Hlt]].
+          exists (f + fk). cbn [firstn]. change (i :: firstn k taken) with ([i] ++ firstn k taken).
+          rewrite added_of_app, (added_of_one _ _ (Havail _ _ Eu)). cbn [app marginal_fees map].
+          rewrite Ef. cbn [bind]. rewrite <- (add_input_inputs _ _ _ _ Ea). rewrite Hfk. cbn [bind].
+          split; [reflexivity|].
+          rewrite Qi, Qo in Hlt. unfold sumQ in *. cbn [fold_right]. destruct sel; cbn [coin_only] in *; lia.
+  Qed.
+
+  (* largest-first stops at the first prefix (in decreasing order of the quantity) that covers the target *)
+  Theorem largest_first_minimal sel aidx st st' aidx' :
+    Inv st -> lf_by ffi sel avail aidx st = (st', Done aidx') ->
+    exists taken, st_trace st' = st_trace st ++ taken /\
+      uncovered_prefixes sel st taken /\ Q sel (st_out st') <= Q sel (st_in st').
+  Proof.
+    intros I H. unfold lf_by in H.
+    destruct (lf_loop ffi sel avail (rev (lf_relevant sel avail aidx)) aidx st) as [st1 r1] eqn:El.
+    ob H. ob H. destruct a0; [|discriminate H]. inversion H; subst.
+    destruct (lf_loop_done _ _ _ _ _ _ I El) as [taken [rest [_ [Htr [_ [_ Hmin]]]]]].
+    exists taken. conj; auto. apply covered_Q in E0. symmetry in E0. apply N.leb_le in E0. exact E0.
+  Qed.
+
+  (* … and reports insufficiency only when every candidate has been added and the target (with all their fees)
+     is still not reached *)
+  Theorem largest_first_complete sel aidx st st' :
+    Inv st -> lf_by ffi sel avail aidx st = (st', Insufficient) ->
+    st_trace st' = st_trace st ++ rev (lf_relevant sel avail aidx) /\
+    Inv st' /\ Q sel (st_in st') < Q sel (st_out st').
+  Proof.
+    intros I H. unfold lf_by in H.
+    destruct (lf_loop ffi sel avail (rev (lf_relevant sel avail aidx)) aidx st) as [st1 r1] eqn:El.
+    destruct r1 as [aidx1| | | |]; cbn [obind] in H.
+    2: { (* the loop itself never reports insufficiency *)
+      exfalso. clear H. revert El. generalize (rev (lf_relevant sel avail aidx)) as todo. intros todo. revert aidx st I.
+      induction todo as [|i todo IH]; intros aidx st I El; cbn [lf_loop] in El; [discriminate El|].
+      assert (Hcov : covered sel st <> Insufficient) by (unfold covered; destruct (by_val sel (st_out st)); discriminate).
+      destruct (covered sel st) as [c| | | |]; cbn [obind] in El; try discriminate El; try (exfalso; apply Hcov; reflexivity).
+      destruct c; [discriminate El|].
+      destruct (nth_error avail i) as [u|] eqn:Eu; [|discriminate El].
+      destruct (add_input ffi true i u st) as [st2 r2] eqn:Ea.
+      destruct r2 as [[]| | | |]; cbn [obind] in El; try discriminate El.
+      - destruct (position i aidx) as [p|]; [|discriminate El].
+        destruct (swap_remove p aidx) as [[x aidx2]|]; [|discriminate El].
+        destruct (add_input_ok _ _ _ _ I (Havail _ _ Eu) Ea) as [I1 _]. apply (IH _ _ I1 El).
+      - unfold add_input in Ea.
+        destruct (ffi (st_inputs st) u) as [fee| | |]; cbn [of_result obind] in Ea; try discriminate Ea.
+        destruct (u_ok u); [|discriminate Ea].
+        destruct (value_checked_add (st_in st) (u_val u)); cbn [of_result obind] in Ea; try discriminate Ea.
+        destruct (value_checked_add (st_out st) (value_new fee)); cbn [of_result obind] in Ea; discriminate Ea. }
+    2-4: discriminate H.
+    assert (Hcov : covered sel st1 <> Insufficient) by (unfold covered; destruct (by_val sel (st_out st1)); discriminate).
+    destruct (covered sel st1) as [c| | | |] eqn:Ec; cbn [obind] in H; try discriminate H; try (exfalso; apply Hcov; reflexivity).
+    destruct c; [discriminate H|]. inversion H; subst st1; clear H.
+    destruct (lf_loop_done _ _ _ _ _ _ I El) as [taken [rest [Hsplit [Htr [I' [Hstop _]]]]]].
+    destruct Hstop as [->|Hc]; [|rewrite Hc in Ec; discriminate Ec].
+    rewrite app_nil_r in Hsplit. subst taken. conj; auto.
+    apply covered_Q in Ec. symmetry in Ec. apply N.leb_gt in Ec. exact Ec.
+  Qed.
 End Proofs.
